@@ -119,7 +119,7 @@ func call(raw json.RawMessage) (any, error) {
 				hold = true
 			}
 		}
-		w, err := world.New(world.Config{Hold: hold})
+		w, err := world.New(world.Config{Hold: hold, Parallel: true})
 		if err != nil {
 			return nil, err
 		}
